@@ -7,6 +7,9 @@ var vFieldP = []byte{0xFF, 0xFF, 0xFF, 0xFF, 0xFF, 0xFF, 0xFF, 0xFF, 0xFF, 0xFF,
 var vOrderN = []byte{0xFF, 0xFF, 0xFF, 0xFF, 0xFF, 0xFF, 0xFF, 0xFF, 0xFF, 0xFF, 0xFF, 0xFF, 0xFF, 0xFF, 0xFF, 0xFE,
 	0xBA, 0xAE, 0xDC, 0xE6, 0xAF, 0x48, 0xA0, 0x3B, 0xBF, 0xD2, 0x5E, 0x8C, 0xD0, 0x36, 0x41, 0x41}
 
+var vGenX = []byte{0x79, 0xbe, 0x66, 0x7e, 0xf9, 0xdc, 0xbb, 0xac, 0x55, 0xa0, 0x62, 0x95, 0xce, 0x87, 0x0b, 0x07,
+	0x02, 0x9b, 0xfc, 0xdb, 0x2d, 0xce, 0x28, 0xd9, 0x59, 0xf2, 0x81, 0x5b, 0x16, 0xf8, 0x17, 0x98}
+
 // 32-byte big-endian a < b, flags only
 func specLess(a, b []byte) bool {
 	lt, eq := false, true
@@ -37,6 +40,10 @@ func VH_schnorr_parse_signature() {
 func VH_schnorr_parse_pubkey_length() {
 	n := []int{0, 31, 33, 64}[vNondetLen("leni", 3)]
 	k := vNondetBytes("key", n)
+	if n >= 32 && vNondetBool("validPrefix") {
+		// a string that STARTS with a valid x-only key (the generator's x coordinate) and continues
+		copy(k, vGenX)
+	}
 	_, err := ParsePubKey(k)
 	vAssert(err != nil, "a key that is not 32 bytes long is rejected")
 	_, err = ParsePubKey(nil)
